@@ -564,8 +564,23 @@ fn descendant_and_self(node: dom::XmlNode) -> Vec<dom::XmlNode> {
 fn following(node: dom::XmlNode) -> Vec<dom::XmlNode> {
     let mut nodes = vec![];
 
-    for n in following_sibling(node) {
-        nodes.append(&mut descendant_and_self(n));
+    // Attribute and namespace nodes come before the children of their element.
+    let mut current = match node {
+        dom::XmlNode::Attribute(_) | dom::XmlNode::Namespace(_) => match parent(&node) {
+            Some(owner) => {
+                nodes.append(&mut descendant(owner.clone()));
+                Some(owner)
+            }
+            None => None,
+        },
+        _ => Some(node),
+    };
+
+    while let Some(c) = current {
+        for n in following_sibling(c.clone()) {
+            nodes.append(&mut descendant_and_self(n));
+        }
+        current = parent(&c);
     }
 
     nodes
@@ -598,13 +613,31 @@ fn namespace(node: dom::XmlNode) -> Vec<dom::XmlNode> {
 fn preceding(node: dom::XmlNode) -> Vec<dom::XmlNode> {
     let mut nodes = vec![];
 
-    for p in preceding_sibling(node) {
-        let mut desc = descendant_and_self(p);
-        desc.reverse();
-        nodes.append(&mut desc);
+    // Attribute and namespace nodes have no siblings; their ancestors are not preceding.
+    let mut current = match node {
+        dom::XmlNode::Attribute(_) | dom::XmlNode::Namespace(_) => parent(&node),
+        _ => Some(node),
+    };
+
+    while let Some(c) = current {
+        for p in preceding_sibling(c.clone()) {
+            let mut desc = descendant_and_self(p);
+            desc.reverse();
+            nodes.append(&mut desc);
+        }
+        current = parent(&c);
     }
 
     nodes
+}
+
+/// Parent in the XPath data model: attribute and namespace nodes have their element as parent.
+fn parent(node: &dom::XmlNode) -> Option<dom::XmlNode> {
+    match node {
+        dom::XmlNode::Attribute(v) => v.owner_element().map(|v| v.as_node()),
+        dom::XmlNode::Namespace(v) => v.owner_element().map(|v| v.as_node()),
+        _ => node.parent_node(),
+    }
 }
 
 fn preceding_sibling(node: dom::XmlNode) -> Vec<dom::XmlNode> {
